@@ -1,9 +1,255 @@
 import QV.Driver.Util
+import QV.Model.Pool
+import QV.Spec.Pool
 
+/-!
+  ops of group `pool` (C29):  `pool <scenario> <schedule> <trace>`
+
+  `<trace>` is the lock-granularity event log of one execution of the real `src/thread.rs` under
+  the controlled scheduler: `;`-separated events, `,`-separated fields (t = thread id):
+
+    ar,t            a thread outside the group starts           cp,t,n   t calls start_pool(n workers)
+    cs,t,k / co,t,k t calls submit / submit_or_spawn(task k)     cd,t / cq,t / ca,t
+                                                                group / pool shut_down, await_shutdown
+    rt,t,op,res     the call returned (res = ok | rej)
+    aq,t,L          t acquired mutex L (G = group records, P = pool records)
+    rl,t,L,a,b,c    t released L by dropping the guard; snapshot of the record
+                    (G: thread_count, shutting_down, pools.len();  P: queue.len(), available_workers, shutting_down)
+    wt,t,L,cv,timed,a,b,c   t released L by waiting on cv (t = task_wakeup, a = available_wakeup,
+                    s = shutdown_wakeup), timed = 1 for wait_timeout
+    n1,t,cv,u|-     t called cv.notify_one(); it woke u / nobody was waiting     na,t,cv   notify_all
+    sw,t,c / sf,t   t spawned group thread c / the spawn failed
+    to,t / sp,t     t's timed wait timed out / t woke spuriously
+    rn,t,k / fn,t,k t starts / finishes task k          ex,t   group thread t returned
+    dl / ms / pn    the scheduler found a deadlock / the step bound was hit / the code panicked
+
+  model column: `ok` iff the log is a path of `QV.Pool.next` with matching snapshots, notify
+  calls, wait/return distinction and call results; else `err:step<i>:<why>`.
+  spec column: `QV.Spec.Pool.verdict` on the same log (`-` when the step bound was hit).
+-/
 namespace QV.Driver
-open QV
+open QV QV.Pool
 
-/-- ops of group `pool` — stub (not built yet) -/
-def poolHandler : Handler := fun _ _ => none
+namespace PoolTrace
+
+structure V where
+  s : State
+  /-- notify calls issued by each thread since it acquired its lock: (thread, cv, all?, target) -/
+  pending : List (Nat × Char × Bool × Option Nat)
+  /-- task of the submission in progress per thread -/
+  lastTask : List (Nat × Nat)
+
+def cvOfWait : Local → Option (Char × Bool)
+  | .wWait .perm => some ('t', false)
+  | .wWait .aux => some ('t', true)
+  | .subWait _ => some ('a', false)
+  | .awWait => some ('s', false)
+  | .rhWait => some ('s', true)
+  | _ => none
+
+/-- the notify calls the model's critical section of thread t performs, in program order -/
+def expectedNotifies (s : State) (t : Nat) : List (Char × Bool) :=
+  let endN : List (Char × Bool) := if s.gShutting && s.threadCount - 1 == 0 then [('s', true)] else []
+  match s.threads[t]? with
+  | some (.subInP _) | some (.sosInP _) =>
+    if !s.pShutting && s.available > s.queue.length then [('t', false)] else []
+  | some .shInG => [('s', true)]
+  | some .shInP => [('t', true), ('a', true)]
+  | some .shInG2 => [('s', true)]
+  | some .pshInP => [('t', true), ('a', true)]
+  | some (.wInP _ reg _) => if reg then [] else [('a', false)]
+  | some .endInG => endN
+  | some (.rhInG _) => if s.gShutting then endN else []
+  | some .rhInG2 => endN
+  | _ => []
+
+def fail (i : Nat) (why : String) : Except String V := .error s!"step{i}:{why}"
+
+def nat? (s : String) : Option Nat := s.toNat?
+
+def step (cfg : Cfg) (i : Nat) (v : V) (f : List String) : Except String V := do
+  let s := v.s
+  let app (l : Label) (why : String) : Except String State :=
+    match next cfg s l with
+    | some s' => .ok s'
+    | none => .error s!"step{i}:{why}"
+  let pc (t : Nat) : Option Local := s.threads[t]?
+  match f with
+  | ["ar", t] =>
+    match nat? t with
+    | some t => if t = s.threads.length then do let s' ← app .arrive "arrive"; pure { v with s := s' } else fail i "tid"
+    | none => fail i "parse"
+  | ["cp", t, n] =>
+    match nat? t, nat? n with
+    | some t, some n => do let s' ← app (.callStartPool t n) "call-start_pool"; pure { v with s := s' }
+    | _, _ => fail i "parse"
+  | [c, t, k] =>
+    if c = "cs" ∨ c = "co" then
+      match nat? t, nat? k with
+      | some t, some k =>
+        if k ≠ s.tasks.length then fail i "task-id" else do
+        let s' ← app (if c = "cs" then .callSubmit t else .callSos t) "call submit"
+        pure { v with s := s', lastTask := (t, k) :: v.lastTask.filter (·.1 != t) }
+      | _, _ => fail i "parse"
+    else if c = "aq" then
+      match nat? t with
+      | some t => do
+        let s' ← app (.acq t) "acquire"
+        let ok := if k = "G" then s.gLock.isNone && s'.gLock == some t && s'.pLock == s.pLock
+                  else if k = "P" then s.pLock.isNone && s'.pLock == some t && s'.gLock == s.gLock
+                  else false
+        if ok then pure { v with s := s' } else fail i "acquired-a-different-lock-than-the-model"
+      | none => fail i "parse"
+    else if c = "na" then
+      match nat? t with
+      | some t => pure { v with pending := v.pending ++ [(t, k.front, true, none)] }
+      | none => fail i "parse"
+    else if c = "sw" then
+      match nat? t, nat? k with
+      | some t, some ch =>
+        if ch ≠ s.threads.length then fail i "child-tid" else do
+        let s' ← app (.spawn t false) "spawn"; pure { v with s := s' }
+      | _, _ => fail i "parse"
+    else if c = "rn" ∨ c = "fn" then
+      match nat? t, nat? k with
+      | some t, some k =>
+        let holds := match pc t with
+          | some (.wRun _ k') | some (.auxStart k') => c = "rn" && k' = k
+          | some (.wRunning _ k') | some (.auxRunning k') => c = "fn" && k' = k
+          | _ => false
+        if !holds then fail i "thread-does-not-hold-this-task" else do
+        let s' ← app (if c = "rn" then .run t else .fin t) "run/fin"; pure { v with s := s' }
+      | _, _ => fail i "parse"
+    else fail i "unknown-event"
+  | ["cd", t] => match nat? t with
+    | some t => do let s' ← app (.callShutdown t) "call-shut_down"; pure { v with s := s' }
+    | none => fail i "parse"
+  | ["cq", t] => match nat? t with
+    | some t => do let s' ← app (.callPoolShutdown t) "call-pool-shut_down"; pure { v with s := s' }
+    | none => fail i "parse"
+  | ["ca", t] => match nat? t with
+    | some t => do let s' ← app (.callAwait t) "call-await_shutdown"; pure { v with s := s' }
+    | none => fail i "parse"
+  | ["sf", t] => match nat? t with
+    | some t => do let s' ← app (.spawn t true) "failed-spawn"; pure { v with s := s' }
+    | none => fail i "parse"
+  | ["to", t] => match nat? t with
+    | some t => do let s' ← app (.timeout t) "timeout"; pure { v with s := s' }
+    | none => fail i "parse"
+  | ["sp", t] => match nat? t with
+    | some t => do let s' ← app (.spurious t) "spurious-wake-up"; pure { v with s := s' }
+    | none => fail i "parse"
+  | ["ex", t] => match nat? t with
+    | some t => if pc t == some .exited then pure v else fail i "thread-returned-but-the-model's-has-not-ended"
+    | none => fail i "parse"
+  | ["n1", t, cv, u] =>
+    match nat? t with
+    | some t =>
+      let tgt : Option (Option Nat) := if u = "-" then some none else (nat? u).map some
+      match tgt with
+      | some tg => pure { v with pending := v.pending ++ [(t, cv.front, false, tg)] }
+      | none => fail i "parse"
+    | none => fail i "parse"
+  | ["rt", t, op, res] =>
+    match nat? t with
+    | some t =>
+      if pc t != some .idle then fail i "call-returned-but-the-model's-call-has-not" else
+      if op = "cs" ∨ op = "co" then
+        match v.lastTask.find? (·.1 == t) with
+        | some (_, k) =>
+          let acc := (s.tasks[k]?.map Status.accepted).getD false
+          if acc == (res == "ok") then pure v else fail i "submission-result-differs-from-the-model"
+        | none => fail i "return-without-call"
+      else pure v
+    | none => fail i "parse"
+  | "rl" :: t :: l :: rest | "wt" :: t :: l :: rest =>
+    let isWait := f.head? == some "wt"
+    match nat? t with
+    | none => fail i "parse"
+    | some t =>
+      let snap? : Option (Nat × Nat × Nat) := match (if isWait then rest.drop 2 else rest) with
+        | [a, b, c] => match nat? a, nat? b, nat? c with
+          | some a, some b, some c => some (a, b, c)
+          | _, _, _ => none
+        | _ => none
+      match snap? with
+      | none => fail i "parse"
+      | some (a, b, c) =>
+        let mine := v.pending.filter (·.1 == t)
+        let target : Option Nat := (mine.filterMap fun (_, _, all, tg) => if all then none else tg).head?
+        -- the section ends by returning (`rl`) or by waiting (`wt`): this decides the model's
+        -- "deadline already passed" (worker) / "throttle the respawn" (respawn handle) choice
+        let flag := match pc t with
+          | some (.wInP _ _ _) => !isWait
+          | some (.rhInG _) => isWait
+          | _ => false
+        let exp := expectedNotifies s t
+        if mine.map (fun (_, cv, all, _) => (cv, all)) != exp then fail i "notify-calls-differ-from-the-model" else
+        match next cfg s (.rel t target flag) with
+        | none => fail i "release/wait-not-enabled-in-the-model"
+        | some s' =>
+          let waitOk := match s'.threads[t]? with
+            | some l' => match cvOfWait l' with
+              | some (cv, timed) => isWait && rest.head? == some (String.singleton cv) && rest[1]? == some (if timed then "1" else "0")
+              | none => !isWait
+            | none => false
+          if !waitOk then fail i "wait/return-differs-from-the-model" else
+          let lockOk := if l = "G" then s.gLock == some t && s'.gLock.isNone else s.pLock == some t && s'.pLock.isNone
+          if !lockOk then fail i "released-a-different-lock-than-the-model" else
+          let snapOk := if l = "G" then s'.threadCount == a && s'.gShutting == (b == 1) && s'.hasPool == (c == 1)
+                        else s'.queue.length == a && s'.available == b && s'.pShutting == (c == 1)
+          if !snapOk then fail i s!"snapshot-differs-from-the-model" else
+          pure { v with s := s', pending := v.pending.filter (·.1 != t) }
+  | _ => fail i "unknown-event"
+
+def validate (cfg : Cfg) (evs : List (List String)) : String :=
+  let rec go (i : Nat) (v : V) : List (List String) → String
+    | [] => "ok"
+    | ["dl"] :: _ | ["ms"] :: _ | ["pn"] :: _ => "ok"
+    | f :: rest => match step cfg i v f with
+      | .ok v' => go (i + 1) v' rest
+      | .error e => "err:" ++ e
+  go 0 { s := init, pending := [], lastTask := [] } evs
+
+open QV.Spec.Pool in
+def toSpecEv (f : List String) : Option Ev :=
+  let n (s : String) := s.toNat?.getD 0
+  match f with
+  | ["cs", t, k] => some (.call (n t) .submit (n k))
+  | ["co", t, k] => some (.call (n t) .sos (n k))
+  | ["cd", t] => some (.call (n t) .shutdown 0)
+  | ["cq", t] => some (.call (n t) .poolShutdown 0)
+  | ["ca", t] => some (.call (n t) .await 0)
+  | ["cp", t, _] => some (.call (n t) .startPool 0)
+  | ["rt", t, op, res] =>
+    let o : Op := if op = "cs" then .submit else if op = "co" then .sos else if op = "cd" then .shutdown
+      else if op = "cq" then .poolShutdown else if op = "ca" then .await else .startPool
+    some (.ret (n t) o (res == "ok"))
+  | ["rn", t, k] => some (.run (n t) (n k))
+  | ["fn", t, k] => some (.fin (n t) (n k))
+  | ["sw", p, c] => some (.spawn (n p) (n c))
+  | "rl" :: t :: "G" :: _ => some (.relG (n t))
+  | ["ex", t] => some (.exit (n t))
+  | ["dl"] => some .deadlock
+  | ["pn"] => some .panic
+  | ["ms"] => some .stepBound
+  | _ :: t :: _ => some (.other (n t))
+  | _ => none
+
+end PoolTrace
+
+def poolHandler : Handler := fun op args =>
+  match op, args with
+  | "pool", [scen, _sched, trace] =>
+    let linger := (scen.splitOn ".")[1]? == some "1"
+    let evs := (trace.splitOn ";").map (·.splitOn ",")
+    let m := PoolTrace.validate { linger := linger, fixed := true } evs
+    let sevs := evs.filterMap PoolTrace.toSpecEv
+    let sp := if sevs.contains .stepBound then "-" else
+      match QV.Spec.Pool.verdict sevs with
+      | none => "ok"
+      | some w => "err:" ++ w
+    some (m, sp)
+  | _, _ => none
 
 end QV.Driver
